@@ -53,6 +53,8 @@ def check(ctx):
     # table must not swallow description vocabulary
     from .c01 import word_tables
     ctx.attempt(word_tables)
+    from .c04 import cleanup_words     # (lazy import: c04 imports c01)
+    ctx.attempt(cleanup_words)
     ctx.attempt(forward.check_all, module_suffixes=('plssdesc.plss_parse', 'plssdesc.plssdesc'))
     ctx.attempt(lockdown, ctx.repo.func('PLSSDesc.parse'), only=('sec_colon_required', 'sec_colon_cautious', 'segment', 'sec_within', 'layout'))
     ctx.attempt(_staging_tables)
